@@ -35,6 +35,8 @@ type resultData struct {
 	response       *astjson.Value
 	responsePath   ast.Path
 	entityIndexMap entityIndexMap
+	// entityType is the entity type a required fields call or a field resolver call belongs to (empty if none).
+	entityType string
 }
 
 // Verify DataSource implements the resolve.DataSource interface
@@ -185,6 +187,7 @@ func (d *DataSource) Load(ctx context.Context, headers http.Header, input []byte
 					kind:         serviceCall.RPC.Kind,
 					response:     response,
 					responsePath: serviceCall.RPC.ResponsePath,
+					entityType:   entityTypeOfCall(graph, serviceCall.RPC),
 				}
 
 				// In case of a federated response, we need to ensure that the response is valid.
@@ -210,7 +213,7 @@ func (d *DataSource) Load(ctx context.Context, headers http.Header, input []byte
 		for _, result := range results {
 			switch result.kind {
 			case CallKindResolve, CallKindRequired:
-				err = builder.mergeWithPath(root, result.response, result.responsePath)
+				err = builder.mergeWithPath(root, result.response, result.responsePath, result.entityType)
 			default:
 				root, err = builder.mergeValues(root, result)
 			}
@@ -226,6 +229,30 @@ func (d *DataSource) Load(ctx context.Context, headers http.Header, input []byte
 
 	value := builder.toDataObject(root)
 	return value.MarshalTo(nil), err
+}
+
+// entityTypeOfCall returns the entity type a required fields call or a field resolver call (transitively) belongs to.
+// It returns an empty string if the call is not related to an entity lookup.
+func entityTypeOfCall(graph *DependencyGraph, call *RPCCall) string {
+	switch call.Kind {
+	case CallKindEntity:
+		return call.RequestedEntityType
+	case CallKindRequired:
+		// The key message of the context is restricted to the entity type.
+		if context := call.Request.Fields.ByName(contextFieldName); context != nil && context.Message != nil {
+			if key := context.Message.Fields.ByName("key"); key != nil && key.Message != nil && len(key.Message.MemberTypes) == 1 {
+				return key.Message.MemberTypes[0]
+			}
+		}
+	case CallKindResolve:
+		for _, dependentCall := range call.DependentCalls {
+			if fetch, err := graph.Fetch(dependentCall); err == nil && fetch.Plan != nil {
+				return entityTypeOfCall(graph, fetch.Plan)
+			}
+		}
+	}
+
+	return ""
 }
 
 func (d *DataSource) acquirePoolItem(input []byte, index int) *arena.PoolItem {
